@@ -65,7 +65,9 @@ var allocFreeNames = []string{"Str", "Strs", "Bytes", "Hex", "Bool", "Bools", "I
 	"Uints/stack", "Uints8/stack", "Uints16/stack", "Uints32/stack", "Uints64/stack", "Floats32/stack", "Floats64/stack", "Times/stack", "Durs/stack",
 	"Str/stack", "RawJSON/stack", "Type/stack", "Dict/stack", "Array/stack",
 	// always present: values beyond the 32-byte stack buffer of small string conversions that need escaping
-	"Str/long", "Bytes/long", "Strs/long", "Err/long"}
+	"Str/long", "Bytes/long", "Strs/long", "Err/long",
+	// containers without members
+	"Array/empty", "Dict/empty", "Array/empty-in-dict"}
 
 func mkStep(name string, r *rng.R) step {
 	k := "k" + string(rune('a'+r.Intn(26)))
@@ -218,6 +220,13 @@ func mkStep(name string, r *rng.R) step {
 			return e.Dict(k, zerolog.Dict().Str("s", s).Int64("i", i64))
 		}}
 	case "Array":
+		if r.Chance(1, 6) {
+			// an array without elements: zerolog.Arr() with nothing appended, or a marshaler that appends nothing
+			if r.Bool() {
+				return step{name, 20, func(e *zerolog.Event) *zerolog.Event { return e.Array(k, zerolog.Arr()) }}
+			}
+			return step{name, 20, func(e *zerolog.Event) *zerolog.Event { return e.Array(k, emptyArr7{}) }}
+		}
 		if r.Bool() {
 			// three elements of random kinds (every Array method of the allocation-free kinds, Object and Dict included)
 			o := &pObj{"v", int(i64)}
@@ -253,6 +262,14 @@ func mkStep(name string, r *rng.R) step {
 		return step{name, 40, func(e *zerolog.Event) *zerolog.Event { return e.Type(k, v) }}
 	case "Func":
 		return step{name, 30, func(e *zerolog.Event) *zerolog.Event { return e.Func(staticFunc) }}
+	case "Array/empty":
+		return step{name, 20, func(e *zerolog.Event) *zerolog.Event { return e.Array(k, zerolog.Arr()) }}
+	case "Dict/empty":
+		return step{name, 20, func(e *zerolog.Event) *zerolog.Event { return e.Dict(k, zerolog.Dict()) }}
+	case "Array/empty-in-dict":
+		return step{name, 30, func(e *zerolog.Event) *zerolog.Event {
+			return e.Dict(k, zerolog.Dict().Array("a", zerolog.Arr()).Array("b", emptyArr7{}))
+		}}
 	case "Str/long", "Bytes/long", "Strs/long", "Err/long":
 		long := "0123456789012345678901234567890123456789\"\\\n\x01é\xff" + s
 		if len(long) > 70 {
@@ -380,6 +397,10 @@ func needsEscape7(b []byte) bool {
 	}
 	return false
 }
+
+type emptyArr7 struct{}
+
+func (emptyArr7) MarshalZerologArray(*zerolog.Array) {}
 
 type o64 struct{ x int }
 
